@@ -39,3 +39,55 @@ def surv_altitude(msg):
     if d == 4:
         return alt_spec.alt13(bits[19:32])
     raise RuntimeError("DF4 expected (DF5 carries an identity code, not an altitude)")
+
+
+# ----------------------------------------------------------------------------- identification (C10)
+def six_bit_char(c):
+    """Annex 10 Vol IV table 3-9 six-bit character set: 1-26 -> A-Z, 32 -> space (shown as
+    '_'), 48-57 -> 0-9.  Every other code is not a legal identification character ('#')."""
+    ch = "#"
+    if 1 <= c and c <= 26:
+        ch = chr(64 + c)
+    if c == 32:
+        ch = "_"
+    if 48 <= c and c <= 57:
+        ch = chr(c)
+    return ch
+
+
+def ident_chars(field48):
+    out = ""
+    for i in range(8):
+        ch = six_bit_char(int(field48[6 * i:6 * i + 6], 2))
+        out = out + ch
+    return out
+
+
+def drop_marks(s):
+    out = ""
+    for ch in s:
+        if ch != "#":
+            out = out + ch
+    return out
+
+
+def callsign(msg):
+    bits = need112(msg)
+    tc = F.tc_of(bits)
+    if tc is None or tc < 1 or tc > 4:
+        raise RuntimeError("not an identification message")
+    me = F.me(bits)
+    return drop_marks(ident_chars(me[8:56]))
+
+
+def category(msg):
+    bits = need112(msg)
+    tc = F.tc_of(bits)
+    if tc is None or tc < 1 or tc > 4:
+        raise RuntimeError("not an identification message")
+    return F.field(F.me(bits), 6, 8)
+
+
+def cs20(msg):
+    bits = need112(msg)
+    return ident_chars(F.me(bits)[8:56])
